@@ -1137,6 +1137,44 @@ func c18g(c *Ctx) {
 			readersFirstIter[n] = guardOf(f)
 		}
 	}
+	// wrappers: a lexer method whose first state-changing step, on every path, is a call of such
+	// a reader (`readIdentifierToken` = positions + readIdentifier + …) reads under the same guard
+	for changed := true; changed; {
+		changed = false
+		for _, f := range c.W.FuncsOf("lexer") {
+			if f.Signature.Recv() == nil || len(f.Blocks) == 0 || f == rc {
+				continue
+			}
+			if _, done := readersFirstIter[f.Name()]; done {
+				continue
+			}
+			for rn, guards := range readersFirstIter {
+				g := c.W.Method("lexer", "Lexer", rn)
+				if g == nil || len(guards) == 0 || len(callsToIn(f, g)) == 0 {
+					continue
+				}
+				isG := func(in ssa.Instruction) bool {
+					ci, ok := in.(ssa.CallInstruction)
+					return ok && callee(ci) == g
+				}
+				_, other := existsPath(pathQuery{from: point{f.Blocks[0], 0}, avoid: isG, target: func(in ssa.Instruction) bool {
+					if _, isRet := in.(*ssa.Return); isRet {
+						return true
+					}
+					ci, ok := in.(ssa.CallInstruction)
+					if !ok {
+						return false
+					}
+					h := callee(ci)
+					return h != nil && h != g && c.W.InRepo(h) && c.T(f).purity(h) < purReadOnly
+				}})
+				if !other {
+					readersFirstIter[f.Name()] = guards
+					changed = true
+				}
+			}
+		}
+	}
 	// lexer methods that read at least one character on every path to a return: a call of
 	// readChar outside a loop, or of another such method, lies on every path (fixpoint)
 	mustConsume := map[*ssa.Function]bool{}
